@@ -203,6 +203,33 @@ def eval_expr(cfg, mode, rhs, case, perm_rng, all_perms):
                                 break
                         if failed:
                             break
+                    # (3) the set of satisfied outputs can also shrink (cylc remove un-satisfies what the removed
+                    #     instance had satisfied): satisfy everything one message at a time (querying in between),
+                    #     then withdraw the upstream instances one by one; the verdict must follow the set
+                    for perm in ([] if failed else perms[:3]):
+                        it = fresh()
+                        for i in perm:
+                            it.satisfy_me([toks[i]])
+                            sat(it)
+                        S = list(perm)
+                        for i in perm:
+                            rid = f"{toks[i]['cycle']}/{toks[i]['task']}"
+                            if not any(f"{toks[j]['cycle']}/{toks[j]['task']}" == rid for j in S):
+                                continue
+                            if pt - case["atoms"][i]["off"] < 1:
+                                continue      # an instance before the initial point does not exist: nothing to remove
+                            for pr in it.state.prerequisites:
+                                pr.unset_naturally_satisfied(rid)
+                            S = [j for j in S if f"{toks[j]['cycle']}/{toks[j]['task']}" != rid]
+                            st["evals"] += 1
+                            got = sat(it)
+                            if got != (frozenset(S) in truth):
+                                report("wrong satisfaction after an upstream instance was removed", tuple(S), got,
+                                       how + f", all satisfied in order {perm}, then {rid} withdrawn")
+                                failed = True
+                                break
+                        if failed:
+                            break
                 except Exception as e:     # noqa: BLE001
                     report(f"evaluation raised {type(e).__name__}", (), str(e)[-60:], how)
                     failed = True
